@@ -39,7 +39,11 @@ def main(tier):
                  'order': 'a 10-byte program switching the LCD off/on and clearing DIV at known machine cycles: the PPU frame index and the divider at the end of the frame are the values that only "CPU first, then video, ..., then timer in the same iteration" produces',
                  'outside': 'wall-clock cancellation latency; the relative order of memory (DMA/RTC) and audio steps among themselves (they do not interact within a cycle)'}
     ck.stubs_used += ['PPU.renderPixel -> no-op in the frame loop (timing state untouched: C15)', 'Gameboy.runFrame -> its return value (display answer) in the Run harness only; natively the real one runs']
-    jobs = [('.', 'VerifRunFrame', {'timer': t, 'display': d, 'lcd': l, 'cancelled': c}) for t, d, l, c in ((0, 1, 1, 0), (1, 0, 1, 1), (2, 1, 0, 1))] + [('.', 'VerifRunFrameOrder', {})]
+    jobs = [('.', 'VerifRunFrame', {'timer': t, 'display': d, 'lcd': l, 'cancelled': c}) for t, d, l, c in ((0, 1, 1, 0), (1, 0, 1, 1), (2, 1, 0, 1))]
+    for j in jobs:
+        j[2]['stop'] = 0
+    jobs += [('.', 'VerifRunFrame', {'timer': 1, 'display': 0, 'lcd': 1, 'cancelled': 0, 'stop': 1})]
+    jobs += [('.', 'VerifRunFrameOrder', {})]
     ck.run(jobs, timeout_ms=300000, setup=stub_render, max_unwind=64, interp_budget_s=1500)
     rjobs = [('.', 'VerifRun', {'display': d, 'speakers': s}) for d in (0, 1) for s in (0, 1)]
     ck.run(rjobs, timeout_ms=300000, setup=run_frame_as_display_answer, max_unwind=64)
